@@ -33,8 +33,8 @@ def mem32(rng):
     i = rng.choice([None, None, "ECX", "EDX", "ESI"])
     s = rng.choice([1, 2, 4, 8]) if i else None
     d = rng.choice([None, 1, -1, 127, 128, -128, -129, 0x1234, 0x12345678])
-    if b == "EBP" and i and d is None:
-        d = 4
+    if b == "EBP" and d is None:
+        d = 4          # [EBP] / [EBP+index] without displacement are finding cells (sizes / encoding)
     if b == "EAX" and i == "EAX":
         i = "ECX"
     return G.mem_exp(b, i, s, d)
